@@ -370,9 +370,10 @@ def _collect_bound_values(
         if isinstance(node, GraphNode):
             # Get bound values from the inner graph
             inner_bound = node.graph.inputs.bound
-            # Merge into all_bound (current graph's values take precedence)
-            for key, value in inner_bound.items():
-                if key not in all_bound:
-                    all_bound[key] = value
+            # Inner bindings are visible under the wrapper's current input names
+            for current in node.inputs:
+                original = node._resolve_original_input_name(current)
+                if original in inner_bound and current not in all_bound:
+                    all_bound[current] = inner_bound[original]
 
     return all_bound
